@@ -91,8 +91,14 @@ class Harness:
             w.pl = ParameterList()
             w.decl = []
         else:
-            w.pl = ParameterList({k: VALUES[v]() for k, v in spec.items()})
+            # the caller keeps its dict and builds a second list from the same object: neither the dict nor the
+            # other list may change when one list is edited
+            w.src = {k: VALUES[v]() for k, v in spec.items()}
+            w.src_keys = list(w.src)
+            w.pl = ParameterList(w.src)
+            w.pl2 = ParameterList(w.src)
             w.decl = [(k, v) for k, v in spec.items()]
+            w.decl2 = list(w.decl)
         w.last = None
         return w
 
@@ -139,6 +145,14 @@ class Harness:
         raise Violation(f'{what}: accepted', expected=exc.__name__, observed='no exception')
 
     def check(self, w):
+        if hasattr(w, 'src'):
+            if list(w.src) != w.src_keys:
+                raise Violation('editing a ParameterList changed the dictionary it was constructed from',
+                                expected=w.src_keys, observed=list(w.src))
+            other = [{k: _py(v) for k, v in d.items()} for d in w.pl2.build()]
+            if other != product(w.decl2):
+                raise Violation('editing one ParameterList changed another list built from the same dictionary',
+                                expected=product(w.decl2)[:6], observed=other[:6])
         exp = product(w.decl)
         before = self.cn(w.pl)
         r1 = w.pl.build()
